@@ -20,17 +20,18 @@ def generate(ctx):
     n = 40000 if ctx.tier == "thorough" else 2600
     for i in range(n):
         kind = rng.choice(["exp_interval", "exp_interval", "exp_interval", "bernoulli", "poisson_interval", "inhomogeneous"])
-        dt = rng.choice([1.0, 0.5])
-        rsteps = rng.choice([None, 1, 2, 5])
-        refrac = None if rsteps is None else rsteps * dt
+        dt = rng.choice([1.0, 0.5, 0.1, 0.3, 0.2])
+        rsteps = rng.choice([None, 1, 2, 3, 5, 6, 9])
+        refrac = None if rsteps is None else rsteps * dt      # the way a user writes "k steps": k * dt
         rms = dt if refrac is None else refrac
         comp = rng.random() < 0.5
-        # documented domain: frequency * refrac < 1000 when compensating
-        fmax = rng.choice([5.0, 50.0, 200.0, 900.0])
+        # documented domain: frequency * refrac < 1000 when compensating; use the upper part of it so that spikes
+        # are packed as tightly as the refractory period allows
+        fmax = rng.choice([5.0, 50.0, 200.0, 900.0, 0.6 * 1000.0 / rms, 0.9 * 1000.0 / rms])
         if kind == "exp_interval" and fmax * rms >= 1000:
             fmax = 900.0 / rms
         shape = rng.choice([(1,), (4,), (2, 3), (2, 2, 2)])
-        yield {"kind": kind, "dt": dt, "steps": rng.choice([1, 2, 7, 40, 120, 300]), "refrac_steps": rsteps,
+        yield {"kind": kind, "dt": dt, "steps": rng.choice([1, 2, 7, 40, 120, 300, 300]), "refrac_steps": rsteps,
                "compensate": comp, "frequency": fmax, "shape": list(shape), "online": rng.random() < 0.4,
                "module": rng.random() < 0.5, "seed": rng.randrange(1 << 31),
                "zeros": rng.choice(["some", "some", "all", "none"]), "ones": rng.random() < 0.6}
@@ -147,5 +148,5 @@ def run_case(ctx, desc):
         iv = inferno.isi(res, dt, time_first=True)
         if iv.numel() and bool((~torch.isnan(iv)).any()):
             m = float(iv[~torch.isnan(iv)].min())
-            if m < gap * dt - 1e-6:
+            if m < gap * dt - 1e-3 * dt:   # inferno.isi works in float32: allow its rounding, far below one step
                 return ctx.violation(f"{opk}.refractory_gap_isi", f"minimum inter-spike interval {m} ms < {gap * dt} ms", desc)
